@@ -48,3 +48,37 @@ void h_hash_bignum_coherent(void) {
   OBL(ha == hb, "hash.coherent: equal bignums have the same default hash whatever their allocated length");
   REACH();
 }
+
+/* strings that are string=? - the same bytes seen through different views of different byte stores (a literal or fresh copy at
+ * offset 0; a view at offset 1 into a longer store, as utf8->string! and string ports produce) - are equal?, and have the same
+ * default hash and the same string-hash. */
+struct by5 { unsigned int tag; char markedp; unsigned char flags; unsigned short pad0; unsigned long length; char data[5]; };
+struct by3 { unsigned int tag; char markedp; unsigned char flags; unsigned short pad0; unsigned long length; char data[3]; };
+struct st_t { unsigned int tag; char markedp; unsigned char flags; unsigned short pad0; sexp bytes; unsigned long offset, length; };
+static struct by5 store_a; static struct by3 store_b; static struct st_t str_a, str_b; static struct typ_t str_type, bytes_type;
+unsigned char in_c0, in_c1; long in_bound;
+void h_string_coherent(void) {
+  sexp ctx = (sexp)&ctx_obj; ctx_obj.tag = SEXP_CONTEXT; verif_register(ctx);
+  globals_vec.tag = SEXP_VECTOR; globals_vec.length = SEXP_G_NUM_GLOBALS; verif_register(&globals_vec); ctx_obj.globals = (sexp)&globals_vec;
+  types_vec.tag = SEXP_VECTOR; types_vec.length = SEXP_BIGNUM + 1; verif_register(&types_vec); globals_vec.data[SEXP_G_TYPES] = (sexp)&types_vec;
+  globals_vec.data[SEXP_G_NUM_TYPES] = sexp_make_fixnum(SEXP_BIGNUM + 1);
+  str_type.tag = SEXP_TYPE; str_type.t = _sexp_type_specs[SEXP_STRING]; verif_register(&str_type); types_vec.data[SEXP_STRING] = (sexp)&str_type;
+  bytes_type.tag = SEXP_TYPE; bytes_type.t = _sexp_type_specs[SEXP_BYTES]; verif_register(&bytes_type); types_vec.data[SEXP_BYTES] = (sexp)&bytes_type;
+  in_c0 = nondet_uchar(); in_c1 = nondet_uchar(); __CPROVER_assume(in_c0 >= 1 && in_c0 < 0x80 && in_c1 >= 1 && in_c1 < 0x80);
+  store_a.tag = SEXP_BYTES; store_a.length = 4; store_a.data[0] = 'x'; store_a.data[1] = in_c0; store_a.data[2] = in_c1; store_a.data[3] = 'y'; store_a.data[4] = 0; verif_register(&store_a);
+  store_b.tag = SEXP_BYTES; store_b.length = 2; store_b.data[0] = in_c0; store_b.data[1] = in_c1; store_b.data[2] = 0; verif_register(&store_b);
+  str_a.tag = SEXP_STRING; str_a.bytes = (sexp)&store_a; str_a.offset = 1; str_a.length = 2; verif_register(&str_a);
+  str_b.tag = SEXP_STRING; str_b.bytes = (sexp)&store_b; str_b.offset = 0; str_b.length = 2; verif_register(&str_b);
+  sexp a = (sexp)&str_a, b = (sexp)&str_b;
+  OBL(sexp_string_size(a) == sexp_string_size(b) && sexp_string_data(a)[0] == sexp_string_data(b)[0] && sexp_string_data(a)[1] == sexp_string_data(b)[1], "coherence.premise: the two strings are string=?");
+  sexp e = sexp_equalp_bound(ctx, NULL, 2, a, b, sexp_make_fixnum(100), sexp_make_fixnum(1000));
+  OBL(e != SEXP_FALSE, "equal.strings_by_content: strings with the same characters are equal? whatever view of whatever byte store they are");
+  sexp_uint_t ha = hash_one(ctx, a, 0, HASH_DEPTH), hb = hash_one(ctx, b, 0, HASH_DEPTH);
+  OBL(ha == hb, "hash.coherent_strings: equal strings have the same default hash");
+  in_bound = nondet_long(); __CPROVER_assume(in_bound >= 1 && in_bound <= SEXP_MAX_FIXNUM);
+  sexp sa = sexp_string_hash(ctx, NULL, 2, a, sexp_make_fixnum(in_bound)), sb = sexp_string_hash(ctx, NULL, 2, b, sexp_make_fixnum(in_bound));
+  OBL(sa == sb && sexp_fixnump(sa), "string_hash.coherent: string=? strings have the same string-hash (a string-keyed table finds them)");
+  sexp ca = sexp_string_ci_hash(ctx, NULL, 2, a, sexp_make_fixnum(in_bound)), cb = sexp_string_ci_hash(ctx, NULL, 2, b, sexp_make_fixnum(in_bound));
+  OBL(ca == cb && sexp_fixnump(ca), "string_ci_hash.coherent: ... and the same string-ci-hash");
+  REACH();
+}
